@@ -177,6 +177,8 @@ func special(s string) bool {
 type acase struct {
 	Family string    `json:"family"` // cliargs | var | init
 	Way    string    `json:"way,omitempty"`
+	Dotenv string    `json:"dotenv,omitempty"` // clivar only: "" | present | missing  (root-level dotenv: list)
+	Decl   string    `json:"decl,omitempty"`   // clivar only: "" | lit | tmpl | env | envlit  (how the Taskfile itself declares X)
 	Args   []string  `json:"-"`
 	Value  string    `json:"-"`
 	Init   *initCase `json:"init,omitempty"`
@@ -188,7 +190,7 @@ func (c *acase) key() string {
 	case "cliargs":
 		return "cliargs|" + h.Hash(c.Args...)
 	case "var":
-		return "var|" + c.Way + "|" + h.Hash(c.Value)
+		return "var|" + c.Way + "|" + c.Dotenv + "|" + c.Decl + "|" + h.Hash(c.Value)
 	}
 	return "init|" + c.Init.key()
 }
@@ -268,6 +270,22 @@ func generate() []*acase {
 			}
 		}
 	}
+	// the Taskfile around a CLI assignment: {no root dotenv, a root dotenv file,
+	// a root dotenv that is listed but missing} x {X not declared, declared with
+	// a literal default, with a template default, as a global env: entry, both}.
+	// NAME=value must reach {{q .NAME}} in every cell (verified by hand on the
+	// unchanged tree for all 15 cells before judging).
+	dotenvs := []string{"", "present", "missing"}
+	decls := []string{"", "lit", "tmpl", "env", "envlit"}
+	for _, dv := range dotenvs {
+		for _, dc := range decls {
+			for _, v := range []string{"plain", "a=b", "=lead", "it's  $HOME \"q\" \\ *", "a\r\nb", ""} {
+				c := mkVar("clivar", v)
+				c.Dotenv, c.Decl = dv, dc
+				add(c)
+			}
+		}
+	}
 	for i, n := 0, h.Pick(170, 2900); i < n; i++ {
 		for _, w := range ways {
 			o := genOpts{}
@@ -275,6 +293,9 @@ func generate() []*acase {
 				o = genOpts{utf8Only: true, noTmpl: true}
 			}
 			if c := mkVar(w, genString(r, 200, o)); c != nil {
+				if w == "clivar" {
+					c.Dotenv, c.Decl = dotenvs[r.Intn(3)], decls[r.Intn(5)]
+				}
 				add(c)
 			}
 		}
@@ -310,10 +331,31 @@ type env struct {
 	bin, argdump, scratch, defaultTaskfile, capDir string
 }
 
+// what the Taskfile itself declares for X in the clivar variants
+const (
+	declLit  = "TASKFILE_DEFAULT_LIT"
+	declTmpl = "TASKFILE_DEFAULT_TMPL"
+	declEnv  = "TASKFILE_ENV_VALUE"
+)
+
 func taskfile(e *env, c *acase) string {
 	q := func(s string) string { return "'" + strings.ReplaceAll(s, "'", "''") + "'" }
 	var b strings.Builder
-	b.WriteString("version: '3'\nvars:\n  ARGDUMP: " + q(e.argdump) + "\ntasks:\n")
+	b.WriteString("version: '3'\n")
+	if c.Dotenv != "" {
+		b.WriteString("dotenv: ['p19.env']\n")
+	}
+	if c.Decl == "env" || c.Decl == "envlit" {
+		b.WriteString("env:\n  X: " + q(declEnv) + "\n")
+	}
+	b.WriteString("vars:\n  ARGDUMP: " + q(e.argdump) + "\n")
+	switch c.Decl {
+	case "lit", "envlit":
+		b.WriteString("  X: " + q(declLit) + "\n")
+	case "tmpl":
+		b.WriteString("  X: " + q(`{{.X_FALLBACK | default "`+declTmpl+`"}}`) + "\n")
+	}
+	b.WriteString("tasks:\n")
 	b.WriteString("  fwd:\n    cmds:\n      - " + q("{{.ARGDUMP}} A {{.CLI_ARGS}} Z") + "\n")
 	cmds := func(v string) string {
 		return "    cmds:\n      - " + q("{{.ARGDUMP}} A {{shellQuote ."+v+"}} Z") + "\n      - " + q("{{.ARGDUMP}} B {{q ."+v+"}} Z") + "\n"
@@ -506,6 +548,18 @@ func judgeVar(id string, c *acase, res h.Result, recs [][]string) []viol {
 	if len(recs) == 0 && res.Crashed() {
 		return []viol{{id + " | " + fam + " | task crashed (Go panic)", fmt.Sprintf("value %q: exit %d, stderr %s", c.Value, res.Exit, clean(res.Stderr, 300))}}
 	}
+	if c.Way == "clivar" && c.Decl != "" && len(recs) == 2 && len(recs[0]) == 3 {
+		for _, d := range []string{declLit, declTmpl, declEnv} {
+			if recs[0][1] == d && c.Value != d {
+				dv := c.Dotenv
+				if dv == "" {
+					dv = "none"
+				}
+				return []viol{{id + " | " + fam + " | the command-line value is replaced by the value the Taskfile declares (dotenv=" + dv + " decl=" + c.Decl + ")",
+					fmt.Sprintf("X=%q on the command line, {{shellQuote .X}} received %q (root dotenv: %s, X declared in the Taskfile as: %s)", c.Value, d, dv, c.Decl)}}
+			}
+		}
+	}
 	if tmpl {
 		return []viol{{id + " | " + fam + " | value interpreted by the template engine", fmt.Sprintf("value %q: exit %d, argv records %v, stderr %s", c.Value, res.Exit, quoteRecs(recs), clean(res.Stderr, 200))}}
 	}
@@ -596,6 +650,9 @@ func Run(id string, start time.Time) int {
 			switch c.Way {
 			case "clivar":
 				args = []string{"-s", "clivar", "X=" + c.Value}
+				if c.Dotenv == "present" {
+					files["p19.env"] = "P19_SOME_ENV=1\n"
+				}
 			case "osenv":
 				args = []string{"-s", "osenv"}
 				envv = append(envv, "X_ENV="+c.Value)
@@ -653,7 +710,7 @@ func Run(id string, start time.Time) int {
 	})
 	rep := h.Report{
 		ID: id, Level: "exploration", Start: start, MinEvents: 200, EventsKey: "argv_records",
-		Rule: "one case = one CLI run. cliargs: a vector of 0-6 strings (0-200 bytes each, weighted alphabet of shell, template and YAML metacharacters, control bytes 0x01-0x1f, 0x7f, raw bytes 0x80-0xff, multi-byte UTF-8, leading dashes; NUL excluded) is passed after '--' to a task whose command is '<argdump> A {{.CLI_ARGS}} Z'; the helper records its argv, which must equal [A, args..., Z] byte for byte. var: one such string reaches {{shellQuote .X}} and {{q .X}} (command '<argdump> A {{shellQuote .X}} Z') as a CLI assignment X=value (this also decides the first-'=' splitting rule), as an OS environment variable, as a Taskfile literal (UTF-8, no template tokens: a literal is documented to be a template) or as the output of a dynamic variable; argv must be [A, value, Z]. init: `task --init [path]` in a fresh directory for a fixed list of path shapes (none, directories, files, extension-only, absolute, names with spaces/quotes/template characters) plus seeded random file names, x {target absent, target present}: exactly one file may appear, at the place the path names, with the default Taskfile's content; an existing target must stay byte-identical, nothing else may appear and the run must not report success (for an extension-only argument the pre-existing file is the expansion Taskfile.<ext>, the literal name, or both). A fixed list of classic values is always included; the rest is seeded. distinct key = hash of the argument bytes (and way); non-trivial = some argument contains a byte outside [A-Za-z0-9_./,:@+-] or is empty (init: a path argument is given).",
+		Rule: "one case = one CLI run. cliargs: a vector of 0-6 strings (0-200 bytes each, weighted alphabet of shell, template and YAML metacharacters, control bytes 0x01-0x1f, 0x7f, raw bytes 0x80-0xff, multi-byte UTF-8, leading dashes; NUL excluded) is passed after '--' to a task whose command is '<argdump> A {{.CLI_ARGS}} Z'; the helper records its argv, which must equal [A, args..., Z] byte for byte. var: one such string reaches {{shellQuote .X}} and {{q .X}} (command '<argdump> A {{shellQuote .X}} Z') as a CLI assignment X=value (this also decides the first-'=' splitting rule; the Taskfile around it varies: {no root dotenv, root dotenv file present, listed but missing} x {X not declared, literal default, template default, global env: entry, env: and literal default}), as an OS environment variable, as a Taskfile literal (UTF-8, no template tokens: a literal is documented to be a template) or as the output of a dynamic variable; argv must be [A, value, Z]. init: `task --init [path]` in a fresh directory for a fixed list of path shapes (none, directories, files, extension-only, absolute, names with spaces/quotes/template characters) plus seeded random file names, x {target absent, target present}: exactly one file may appear, at the place the path names, with the default Taskfile's content; an existing target must stay byte-identical, nothing else may appear and the run must not report success (for an extension-only argument the pre-existing file is the expansion Taskfile.<ext>, the literal name, or both). A fixed list of classic values is always included; the rest is seeded. distinct key = hash of the argument bytes (and way); non-trivial = some argument contains a byte outside [A-Za-z0-9_./,:@+-] or is empty (init: a path argument is given).",
 		Assumptions: []string{
 			"the helper binary records exactly what execve handed it (hex-encoded, one O_APPEND write per invocation)",
 			"NUL bytes cannot be passed through argv/environment and are excluded",
